@@ -25,6 +25,7 @@ type Program struct {
 	ModPath string
 	// contract comment blocks found in zz_contracts_verif.go files, per package path
 	ContractSrc map[string][]ContractLine
+	repoFuncs   []*ssa.Function
 }
 
 // ContractLine is one "//@" line of a guarded contract file.
@@ -182,6 +183,14 @@ func (p *Program) lookupFunc(pkgPath, key string) *ssa.Function {
 // allRepoFuncs returns every non-synthetic function (incl. methods and anonymous
 // functions) declared in non-generated repo packages.
 func (p *Program) allRepoFuncs() []*ssa.Function {
+	if p.repoFuncs != nil {
+		return p.repoFuncs
+	}
+	defer func() { p.repoFuncs = p.allRepoFuncs0() }()
+	return p.allRepoFuncs0()
+}
+
+func (p *Program) allRepoFuncs0() []*ssa.Function {
 	var out []*ssa.Function
 	for fn := range ssautil.AllFunctions(p.SSA) {
 		if (fn.Synthetic != "" && fn.Name() != "init") || fn.Blocks == nil {
